@@ -625,8 +625,27 @@ def numerical_jacobian_functions(pkg):
         if fn is None:
             _PERTURB_CACHE[key] = (None, set())
         else:
-            new, inl = inline_helpers(pkg, fn, keep=("calc_error", "calc_chi2", "calc_jacobians", "calc_chi2_gradient_hessian", "is_valid", "_is_valid"))
-            _PERTURB_CACHE[key] = (new, {fn} | set(inl))
+            keep = ("calc_error", "calc_chi2", "calc_jacobians", "calc_chi2_gradient_hessian", "is_valid", "_is_valid")
+            new, inl = inline_helpers(pkg, fn, keep=keep)
+            # plus every private helper it reaches (generators, context managers, module functions): stores to `.pose` in them are
+            # the perturbation / restoration too.  Whether they pair up correctly is decided by rule C15-E2, not here.
+            reach, todo = {fn} | set(inl), [fn] + list(inl)
+            while todo:
+                f = todo.pop()
+                for c in ast.walk(f):
+                    if not isinstance(c, ast.Call):
+                        continue
+                    g = None
+                    if isinstance(c.func, ast.Attribute) and isinstance(c.func.value, ast.Name) and c.func.value.id == "self" and c.func.attr not in keep:
+                        k = pkg.lookup("BaseEdge", c.func.attr)
+                        if k is not None and k[0] == "method":
+                            g = k[1][0]
+                    elif isinstance(c.func, ast.Name) and c.func.id in pkg.funcs and c.func.id not in keep:
+                        g = pkg.funcs[c.func.id]
+                    if g is not None and g not in reach and getattr(g, "_gs_module", "").endswith("base_edge.py"):
+                        reach.add(g)
+                        todo.append(g)
+            _PERTURB_CACHE[key] = (new, reach)
     return _PERTURB_CACHE[key]
 
 
